@@ -14,7 +14,8 @@ KINDS = ["CSBK/pre", "CSBK/other", "DH/C", "DH/U", "DH/R", "DH/S", "DH/T", "VLC"
          "R12/u", "R12/c", "R12/ul", "R12/cl", "R34/u", "R34/c", "R34/ul", "R34/cl", "R1/u", "R1/c", "R1/ul", "R1/cl"]
 
 
-def make_pdu(rng, kind):
+def make_pdu(rng, kind, fill=None):
+    """fill: None = random payload octets, 0 / 255 = every payload octet of a rate block / PI header has that value"""
     from okdmr.dmrlib.etsi.layer2.elements.data_types import DataTypes as DT
     from okdmr.dmrlib.etsi.layer2.pdu.pi_header import PIHeader
     from okdmr.dmrlib.etsi.layer2.pdu.rate12_data import Rate12Data, Rate12DataTypes
@@ -33,7 +34,7 @@ def make_pdu(rng, kind):
     if fam == "TLC":
         return gen.full_lc_voice(rng, rng.randrange(1 << 24), group=bool(rng.getrandbits(1))), DT.TerminatorWithLC, None
     if fam == "PI":
-        return PIHeader(data=gen.rbytes(rng, 10)), DT.PIHeader, None
+        return PIHeader(data=gen.rbytes(rng, 10) if fill is None else bytes([fill]) * 10), DT.PIHeader, None
     C, T, n, dt = {"R12": (Rate12Data, Rate12DataTypes, 12, DT.Rate12Data), "R34": (Rate34Data, Rate34DataTypes, 18, DT.Rate34Data),
                    "R1": (Rate1Data, Rate1DataTypes, 24, DT.Rate1Data)}[fam]
     typ = {"u": T.Unconfirmed, "c": T.Confirmed, "ul": T.UnconfirmedLastBlock, "cl": T.ConfirmedLastBlock}[sub]
@@ -43,7 +44,7 @@ def make_pdu(rng, kind):
         kw["dbsn"] = rng.randrange(128)
     if "l" in sub:
         kw["crc32"] = rng.randrange(1, 1 << 32)
-    return C(data=gen.rbytes(rng, dl), packet_type=typ, **kw), dt, typ
+    return C(data=gen.rbytes(rng, dl) if fill is None else bytes([fill]) * dl, packet_type=typ, **kw), dt, typ
 
 
 def data_work(args):
@@ -60,14 +61,16 @@ def data_work(args):
 
     rng = random.Random(seed)
     out = []
-    for kind in kinds:
-        for k in range(n):
+    # kinds interleaved in one process (what one kind leaves behind must not show in the next); the first two rounds
+    # carry all-zero and all-one payload octets, so that bursts of different coding families share their information bits
+    for k in range(n):
+        for kind in kinds:
             cc = k % 16 if k < 32 else rng.randrange(16)
             sync = gen.DATA_SYNCS[(k // 16) % 4 if k < 64 else rng.randrange(4)]
             rec = {"kind": kind, "cc": cc, "sync": sync, "dt": "", "dtv": 0, "err": "", "nbytes": 0, "bytes": [0] * 17, "payload": [0],
                    "pdt": "", "pcc": -1, "fields_equal": False, "bytes2": [0]}
             try:
-                pdu, dt, typ = make_pdu(rng, kind)
+                pdu, dt, typ = make_pdu(rng, kind, fill={0: 0, 1: 255}.get(k))
                 rec["dt"], rec["dtv"] = dt.name, dt.value
                 rec["payload"] = pack(pdu.as_bits())
                 raw = gen.assemble_data_burst(pdu, dt, cc, sync)
@@ -182,7 +185,8 @@ def run(ctx):
     per = 70 if ctx.quick else 700
     nv = 1200 if ctx.quick else 20000
     with Pool(core.NCPU) as pool:
-        parts = pool.map(data_work, [(ctx.seed * 7 + i, [k], per) for i, k in enumerate(KINDS)])
+        nw = 8
+        parts = pool.map(data_work, [(ctx.seed * 7 + i, KINDS[i % len(KINDS):] + KINDS[:i % len(KINDS)], (per + nw - 1) // nw + 2) for i in range(nw)])
         vparts = pool.map(voice_work, [(ctx.seed * 11 + i, nv // 16) for i in range(16)])
     data = sum(parts, [])
     voice = sum(vparts, [])
